@@ -19,6 +19,9 @@ from .c09 import write_cfg
 SYM = {1: "a", 2: "b", 3: "\n"}
 
 
+ALT_SYMS = [{1: "\x0c", 2: "\r", 3: "\n"}, {1: "\u2028", 2: "\x85", 3: "\n"}, {1: "\x1d", 2: "\x0b", 3: "\n"}, {1: "\U0001f600", 2: "\u0301", 3: "\n"}]
+
+
 def strip_nl(s: str) -> str:
     return s[:-1] if s.endswith("\n") else s
 
@@ -90,7 +93,7 @@ def check_text(pest, rep, text: str, rows) -> int:
 
 
 def long_texts(rnd: random.Random, thorough: bool):
-    alph = ["a", "é", "€", "😀", " ", "\t", "x\n", "\n", "\n", "日本", "́", "z"]
+    alph = ["a", "é", "€", "😀", " ", "\t", "x\n", "\n", "\n", "日本", "́", "z", "\r", "\x0c", "\u2028", "\x85", "\x0b"]
     out = []
     for i in range(6 if not thorough else 30):
         lines = rnd.randint(5, 60 if not thorough else 2000)
@@ -120,6 +123,11 @@ def run(tier: str) -> int:
         rec = C.decode_printt(line)
         text = "".join(SYM[c] for c in rec["t"])
         n = check_text(pest, rep, text, rec["rows"])
+        # the two symbols that are not the line break are ORDINARY characters: the same table must hold when they are
+        # characters that other conventions treat as line boundaries (str.splitlines does), or astral / combining ones
+        for alt in ALT_SYMS:
+            if any(c != 3 for c in rec["t"]):
+                n += check_text(pest, rep, "".join(alt[c] for c in rec["t"]), rec["rows"])
         count += 1
         rep.evaluations += n
         if len(text) == maxlen and "\n" in text:
